@@ -335,7 +335,7 @@ func setupFile(w *workload) (root, path string, cfg *snaps.Config) {
 	root = vkit.MkScratch("c06")
 	path = filepath.Join(root, "shared.snap")
 	os.WriteFile(path, []byte(vkit.RenderSnapFile(w.Pre)), 0o644)
-	cfg = snaps.WithConfig(snaps.Dir(root), snaps.Filename("shared"))
+	cfg = snaps.WithConfig(snaps.Dir(root), snaps.Filename("shared"), snaps.JSON(snaps.JSONConfig{Indent: " ", SortKeys: true}))
 	return
 }
 
